@@ -17,6 +17,15 @@ RULE = ('exhaustive: all vertex lists of length 0..4 over the 3x2 integer grid x
         'large-magnitude float stream (chord/tolerance up to 1e12, translations up to 1e12*tol, sharp reversals overshooting '
         'either chord end by about the tolerance; chords of dyadic length 1e6..1e9*tol with interior vertices projecting '
         'INSIDE the chord at offsets 0.25..4*tol), judged against exact Fractions of the float inputs. '
+        'lattice stream: Python ints and dyadic doubles (and mixtures) on chords of INTEGER length - Pythagorean directions '
+        '3-4-5 ... 9-40-41 and multiples, every sign / swap, and axis-aligned chords - with an interior vertex drawn from ALL '
+        'integer points at an exactly integer distance j from the chord (perpendicular region: j*(x1,y1)+t*(a,b) with '
+        'x1*b-y1*a=c; before the start / past the end at an integer distance from the end point; projecting exactly onto an '
+        'end), tolerance = that distance EXACTLY (tie: strict "closer than") or moved by a factor 1+-2^-k (k = 8..36), '
+        'companions closer than the tie, optionally embedded in a longer path (collinear continuation, repeats, closing), '
+        'scaled by 1, 2, 5, 1/2, 1/4, 1/8 and translated (up to 2^20): judged with NO band wherever every quantity of the '
+        'comparison is an integer < 2^53 in lattice units (predicate vs exact distance, predicate vs the reference when the '
+        'reference is verified exact, supersample by the exact oracle, same-list sequences). '
         'every 3rd exact / 4th float case also runs three two-call sequences on ONE list object (reference->predicate, '
         'reference->supersample, predicate->reference), each call judged against the list as it was before the sequence; '
         'every call into the code under test gets its own fresh list, compared with a snapshot afterwards. '
@@ -31,7 +40,12 @@ ASSUMPTIONS = ['vertices are 2-sequences of finite numbers held in a Python list
                'float inputs: extent D of the vertex list <= 1e12 * tolerance, |coordinates| <= 1e13 * tolerance, tolerance >= 1e-6 '
                '(no overflow/underflow of squares); float decisions are required to be exact only outside the relative band '
                'max(1e-9, 16 * 2^-53 * D / tolerance) around the tolerance (measured on 4.6e5 cases: unchanged code flips only '
-               'within 1.27 * 2^-53 * D / tol; |max_dist_from_n_points - exact| <= 3.3 * 2^-53 * D)']
+               'within 1.27 * 2^-53 * D / tol; |max_dist_from_n_points - exact| <= 3.3 * 2^-53 * D)',
+               'exception to the float band (lattice stream): when coordinates and tolerance are integers times one power of two '
+               '2^-q (q <= 10), |coordinates| < 2^40 and extent M, tolerance t (lattice units) satisfy 4*M^4 < 2^53 and 2*t^2*M^2 < 2^53, '
+               'every quantity of the distance-versus-tolerance comparison is exactly representable, so the statement is applied '
+               'with no band: a vertex at EXACTLY the tolerance distance is not "closer than the tolerance" (measured: 0 '
+               'flips of the unchanged code on 3 x 10^4 such cases, 60% of them exact ties)']
 STAGED = []
 
 REL = 1e-9
@@ -426,6 +440,256 @@ def gen_float_long_inside(rng):
     return pts, tol
 
 
+# ------------------------------------------------------------------------------------------ lattice ties (int / dyadic doubles)
+# Vertex lists whose coordinates and tolerance are small integers (or small integers times a power of two), held as Python
+# ints and/or doubles, on chords whose length is an integer: Pythagorean directions (3-4-5, 5-12-13, ... and multiples,
+# all sign / swap variants) and - as the neighbouring class - axis-aligned chords.  An integer point (x, y) lies at
+# distance |x*b - y*a| / c from the line through the origin with direction (a, b), a^2 + b^2 = c^2, so the integer points
+# at distance exactly j are  j*(x1, y1) + t*(a, b)  with  x1*b - y1*a = c : EVERY such point can be drawn (not only the
+# sub-lattice P0 + t*(a,b) + s*(-b,a)).  The tolerance is such a distance exactly (a tie: "closer than" is strict, so
+# the vertex must stay / the predicate must say False), or the tie moved by a factor 1 +- 2^-k.
+PYTH = [(3, 4, 5), (5, 12, 13), (8, 15, 17), (7, 24, 25), (20, 21, 29), (12, 35, 37), (9, 40, 41)]
+
+
+def _int_vectors():
+    """integer vectors of integer length (axis-aligned and Pythagorean, every sign / swap), length <= 45"""
+    out = []
+    for r in range(1, 13):
+        out += [((r, 0), r), ((-r, 0), r), ((0, r), r), ((0, -r), r)]
+    for a, b, c in PYTH:
+        for g in (1, 2, 3):
+            if g * c > 45:
+                continue
+            for x, y in ((a, b), (b, a)):
+                for sx in (1, -1):
+                    for sy in (1, -1):
+                        out.append(((g * sx * x, g * sy * y), g * c))
+    return out
+
+
+INT_VECS = _int_vectors()
+
+
+def _normal_step(a, b, c):
+    """an integer point (x, y) with x*b - y*a == c, i.e. at distance exactly 1 from the line {t*(a, b)}"""
+    best = None
+    for x in range(-abs(a) - 1, abs(a) + 2):
+        for y in range(-abs(b) - 1, abs(b) + 2):
+            if x * b - y * a == c and (best is None or abs(x) + abs(y) < abs(best[0]) + abs(best[1])):
+                best = (x, y)
+    return best
+
+
+def gen_tie(rng):
+    """-> (core, full, tol): `core` = [P0, interior vertices..., P1] with one interior vertex at EXACTLY the distance
+    `tol` (or tol = that distance * (1 +- 2^-k)) from the chord P0-P1; `full` = the core embedded in a longer path (or the
+    core itself).  Values are ints and/or doubles, all exactly representable."""
+    if rng.random() < 0.82:
+        a, b, c = rng.choice(PYTH)
+        if rng.random() < 0.5:
+            a, b = b, a
+        a *= rng.choice([-1, 1]); b *= rng.choice([-1, 1])
+    else:
+        a, b, c = rng.choice([(1, 0, 1), (0, 1, 1), (-1, 0, 1), (0, -1, 1)])       # neighbouring class: axis-aligned chord
+    m = rng.choice([1, 1, 2, 2, 3, 4, 5, 8])
+    A, B = m * a, m * b                                   # chord vector, length m*c
+    x1, y1 = _normal_step(a, b, c)
+    w = x1 * a + y1 * b
+    cc = c * c
+
+    def at(j, t):
+        return (j * x1 + t * a, j * y1 + t * b)           # signed distance j from the chord's line
+
+    def inside_ts(j):
+        # 0 < dot(at(j,t), (A,B)) < |(A,B)|^2   <=>   0 < j*w + t*c^2 < m*c^2
+        lo = (-j * w) // cc + 1
+        return [t for t in range(lo, lo + m + 1) if 0 < j * w + t * cc < m * cc]
+
+    kind = rng.random()
+    tie_pt = None
+    if kind < 0.62:
+        for _ in range(8):
+            j = rng.choice([1, 1, 1, 2, 2, 3, 4]) * rng.choice([-1, 1])
+            ts = inside_ts(j)
+            if ts:
+                tie_pt, tie = at(j, rng.choice(ts)), abs(j)
+                break
+    elif kind < 0.74:                                     # before the start, at an integer distance from P0
+        for _ in range(20):
+            (vx, vy), ln = rng.choice(INT_VECS)
+            if vx * A + vy * B <= 0:
+                tie_pt, tie = (vx, vy), ln
+                break
+    elif kind < 0.86:                                     # past the end, at an integer distance from P1
+        for _ in range(20):
+            (vx, vy), ln = rng.choice(INT_VECS)
+            if vx * A + vy * B >= 0:
+                tie_pt, tie = (A + vx, B + vy), ln
+                break
+    else:                                                 # projects exactly ONTO an end of the chord (region boundary)
+        j = rng.choice([1, 2, 3]) * rng.choice([-1, 1])
+        base = rng.choice([(0, 0), (A, B)])
+        tie_pt, tie = (base[0] - j * b, base[1] + j * a), abs(j) * c
+    if tie_pt is None:
+        tie_pt, tie = (-b, a), c
+    P0, P1 = (0, 0), (A, B)
+    # companions: other interior vertices, mostly strictly closer than the tie distance
+    comp = []
+    for _ in range(rng.choice([0, 0, 0, 1, 1, 2, 3])):
+        for _try in range(6):
+            z = rng.random()
+            if z < 0.5:
+                q = at(rng.randint(-tie, tie) if tie <= 6 else rng.randint(-3, 3), rng.randint(-1, m + 1))
+            elif z < 0.7:
+                q = (rng.randint(0, m) * a, rng.randint(0, m) * b) if rng.random() < 0.5 else rng.choice([P0, P1, tie_pt])
+            else:
+                q = (rng.randint(min(0, A) - 3, max(0, A) + 3), rng.randint(min(0, B) - 3, max(0, B) + 3))
+            if dist2(q, P0, P1) < tie * tie or rng.random() < 0.2:
+                comp.append(q)
+                break
+    inner = comp + [tie_pt]
+    z = rng.random()
+    if z < 0.5:
+        inner.sort(key=lambda q: q[0] * A + q[1] * B)     # in order along the chord
+    elif z < 0.8:
+        rng.shuffle(inner)                                # sharp reversals
+    core = [P0] + inner + [P1]
+    full = list(core)
+    if rng.random() < 0.55:
+        def extra():
+            z = rng.random()
+            if z < 0.4:                                   # continues along the chord's line: the window keeps growing
+                return (A + rng.randint(1, 4) * a, B + rng.randint(1, 4) * b)
+            if z < 0.55:
+                return rng.choice(core)
+            if z < 0.7:
+                q = rng.choice(INT_VECS)[0]
+                return (A + q[0], B + q[1])
+            return (rng.randint(min(0, A) - 6, max(0, A) + 6), rng.randint(min(0, B) - 6, max(0, B) + 6))
+        full = [extra() for _ in range(rng.choice([0, 0, 1, 2]))] + core + [extra() for _ in range(rng.choice([0, 1, 1, 2, 3]))]
+    # tolerance: the tie itself, or moved by a relative 2^-k
+    z = rng.random()
+    tol = F(tie)
+    if z >= 0.7:
+        tol = tol * (1 + rng.choice([-1, 1]) * F(1, 2 ** rng.choice([8, 16, 24, 30, 36])))
+    # scale (integers and powers of two: everything stays exactly representable) and translate
+    unit = rng.choice([F(1), F(1), F(1), F(2), F(5), F(1, 2), F(1, 4), F(1, 8)])
+    big = rng.random() < 0.15
+    ox = F(rng.randint(-2 ** 20, 2 ** 20) if big else rng.randint(-40, 40)) * rng.choice([1, 1, unit])
+    oy = F(rng.randint(-2 ** 20, 2 ** 20) if big else rng.randint(-40, 40)) * rng.choice([1, 1, unit])
+    mode = rng.choice(['int', 'float', 'float', 'mixed'])
+
+    def num(v):
+        if v.denominator == 1 and (mode == 'int' or (mode == 'mixed' and rng.random() < 0.5)):
+            return int(v)
+        return float(v)
+
+    conv = {}
+
+    def pt(q):
+        if q not in conv or mode == 'mixed':
+            conv[q] = (num(q[0] * unit + ox), num(q[1] * unit + oy))
+        return conv[q]
+    tol = num(tol * unit)
+    return [pt(q) for q in core], [pt(q) for q in full], tol
+
+
+def lattice_exact(pts, tol):
+    """True when coordinates and tolerance are integers times one power of two 2^-q (q <= 10) and so small that every
+    quantity of the distance-versus-tolerance comparison (coordinate differences, dot and cross products, squared
+    lengths, cross^2, tolerance^2 * length^2) is an integer below 2^53 in units of the lattice: the comparison can be
+    decided without any rounding, so the strict "closer than the tolerance" is required exactly (no float band)."""
+    try:
+        vals = [F(c) for p in pts for c in p] + [F(tol)]
+    except (TypeError, ValueError, OverflowError):
+        return False
+    q = max(v.denominator for v in vals)
+    if q > 1024 or q & (q - 1):
+        return False
+    iv = [int(v * q) if (v * q).denominator == 1 else None for v in vals]
+    if any(v is None for v in iv):
+        return False
+    t = iv[-1]
+    xs, ys = iv[0:-1:2], iv[1:-1:2]
+    if max(abs(v) for v in iv[:-1]) >= 2 ** 40:
+        return False
+    M = max(max(xs) - min(xs), max(ys) - min(ys), 1)
+    return 4 * M ** 4 < 2 ** 53 and 2 * t * t * M * M < 2 ** 53
+
+
+def lattice_case(ctx, pu, pts, tol, fstats, tstats, path, seq=False):
+    """one case of ints / doubles; inside the exactly decidable lattice domain it is judged with NO band (ties included),
+    otherwise (tie moved by 2^-k: the tolerance has more bits) like any other float case"""
+    if len(pts) < 3 or not tol > 0:
+        return
+    if not lattice_exact(pts, tol):
+        tstats['banded'] += 1
+        float_case(ctx, pu, pts, tol, fstats, path + ':near')
+        return
+    fs = repr
+    inp = {'fn': 'points_in_tolerance', 'stream': 'lattice', 'vertices': [[fs(a), fs(b)] for a, b in pts], 'tolerance': fs(tol)}
+    ex_pts = [(F(a), F(b)) for a, b in pts]
+    d2s = [dist2(p, ex_pts[0], ex_pts[-1]) for p in ex_pts[1:-1]]
+    d2 = max(d2s)
+    T = F(tol) ** 2
+    reg = region(ex_pts[1:-1][d2s.index(d2)], ex_pts[0], ex_pts[-1])
+    types = ''.join('i' if isinstance(c, int) else 'f' for p in pts for c in p)
+    ctx.count(('lat', tuple(pts), tol, types), f'{path}:{reg}' + (':eq' if d2 == T else ''), True)
+    tstats['n'] += 1
+    tstats['ties'] += d2 == T
+    impl = get_impl(ctx, pu)
+    try:
+        pr = impl.pit(pts, tol, inp)
+        ref = impl.ref(pts, inp)
+    except Exception as ex:
+        ctx.violate('points_in_tolerance / max_dist_from_n_points raised ' + type(ex).__name__, inp, repr(ex), 'a value')
+        return
+    want = d2 < T
+    if bool(pr) != want:
+        ctx.violate('points_in_tolerance disagrees with the exact maximum distance', inp, str(pr),
+                    f'{want} (max squared distance {d2} vs tolerance^2 {T}; integer / dyadic inputs: decidable without rounding)')
+    ok_num = isinstance(ref, (int, float)) and math.isfinite(ref)
+    if ok_num and F(ref) ** 2 == d2:
+        tstats['ref_exact'] += 1                         # the reference returned the true maximum distance exactly
+        if bool(pr) != (ref < tol):
+            ctx.violate('points_in_tolerance disagrees with max_dist_from_n_points', inp, str(pr),
+                        f'{ref < tol} (reference maximum {ref!r}, which is the exact maximum distance, vs tolerance {tol!r})')
+    else:
+        exact = math.sqrt(d2)
+        if not (ok_num and abs(ref - exact) <= REL * max(1.0, exact)):
+            ctx.violate('max_dist_from_n_points is not the maximum distance of the list', inp, repr(ref), repr(exact))
+        elif ok_num and abs(ref - float(tol)) > REL * max(float(tol), ref) and bool(pr) != (ref < tol):
+            ctx.violate('points_in_tolerance disagrees with max_dist_from_n_points', inp, str(pr),
+                        f'{ref < tol} (reference maximum {ref!r} vs tolerance {tol!r})')
+    idx = check_supersample(ctx, pu, pts, tol, 0, 'lattice')
+    if idx is not None and len(idx) < len(pts) and tstats['n'] % 50 == 1:
+        ctx.sample({'stream': 'lattice', 'vertices': inp['vertices'], 'tolerance': inp['tolerance'], 'survivors': idx})
+    if seq and not ctx.violations:
+        sequences(ctx, pu, pts, tol, 0, 'lattice')
+
+
+def lattice_stream(ctx, pu, fstats, replayed):
+    rng = ctx.rng
+    tstats = {'n': 0, 'ties': 0, 'ref_exact': 0, 'banded': 0}
+    pinned = [
+        ([(0, 0), (7, 11), (8, 15)], 1),                                 # 8-15-17, integer point not on the (a,b)/(-b,a) sub-lattice
+        ([(2.0, -1.0), (23.0, 10.0), (26.0, 6.0)], 5.0),                 # 7-24-25, distance 5
+        ([(0, 0), (-4, 3), (3, 4)], 5),                                  # projects exactly onto the start
+        ([(0.5, 0.25), (2.0, 1.0), (2.0, 2.25), (8.0, 2.25)], 0.5),      # dyadic 3-4-5 (x 1/2) inside a longer path
+    ]
+    for pts, tol in replayed + pinned:
+        lattice_case(ctx, pu, pts, tol, fstats, tstats, 'lattice:pinned', seq=True)
+    for k in range(ctx.n(2500)):
+        core, full, tol = gen_tie(rng)
+        lattice_case(ctx, pu, core, tol, fstats, tstats, 'lattice', seq=(k % 4 == 0))
+        if full != core:
+            lattice_case(ctx, pu, full, tol, fstats, tstats, 'lattice:path', seq=(k % 8 == 1))
+    ctx.notes.append(f"lattice stream (ints / dyadic doubles, integer-length chords): {tstats['n']} cases judged without a band, "
+                     f"{tstats['ties']} of them with the maximum distance exactly equal to the tolerance; max_dist_from_n_points "
+                     f"returned the exact maximum in {tstats['ref_exact']} of them; {tstats['banded']} near-tie cases "
+                     f"(tolerance = tie * (1 +- 2^-k)) judged as float cases")
+
+
 def run(ctx):
     from plotink import plot_utils as pu
     rng = ctx.rng
@@ -443,6 +707,7 @@ def run(ctx):
         ([(F(0), F(0)), (F(2), F(3, 4)), (F(5), F(-3, 4)), (F(8), F(3, 4)), (F(10), F(0))], F(1)),   # measured, then reduced
     ]
     replay_float = []
+    replay_lattice = []
     n_replay = 0
     if getattr(ctx, 'replay', None):
         try:
@@ -454,6 +719,9 @@ def run(ctx):
                     n_replay += 1
                 elif i.get('stream') == 'float' and 'vertices' in i and len(i['vertices']) >= 3:
                     replay_float.append(([(float(a), float(b)) for a, b in i['vertices']], float(i['tolerance'])))
+                elif i.get('stream') == 'lattice' and 'vertices' in i and len(i['vertices']) >= 3:
+                    lit = lambda t: int(t) if t.strip().lstrip('+-').isdigit() else float(t)   # ints stay ints, doubles stay doubles
+                    replay_lattice.append(([(lit(a), lit(b)) for a, b in i['vertices']], lit(i['tolerance'])))
         except Exception as ex:  # a replay file of another shape: ignore
             ctx.notes.append(f'replay not understood: {ex!r}')
 
@@ -530,8 +798,10 @@ def run(ctx):
             ctx.violate('points_in_tolerance disagrees with max_dist_from_n_points', inp, str(pr),
                         f'{ref < tol} (reference maximum {ref!r} vs tolerance {tol})')
 
-    # ---------------- float stream (implementation + oracle only; the model is exact)
     fstats = {'worst': 0.0, 'skipped': 0, 'flip': 0.0, 'worst_uD': 0.0}
+    # ---------------- lattice stream: ints / dyadic doubles with EXACT ties on integer-length (Pythagorean) chords, no band
+    lattice_stream(ctx, pu, fstats, replay_lattice)
+    # ---------------- float stream (implementation + oracle only; the model is exact)
     float_case(ctx, pu, [(0.0, 0.0), (1000000001.0, 3.0), (1000000000.0, 0.0)], 2.0, fstats, 'float:large')
     float_case(ctx, pu, [(0.0, 0.0), (-1000000000.0, 3.0), (1.0, 0.0)], 2.0, fstats, 'float:large')
     for _ in range(ctx.n(6000)):
@@ -647,6 +917,10 @@ def gen_stream(ctx, pu, cases):
     for pts, tol in _float_lists(rng, ctx.n(6000)):
         if all(v == 0 or 1e-30 <= abs(v) <= 1e30 for p in pts for v in p) and 1e-30 <= abs(tol) <= 1e30:
             jobs.append(('ieee', pts, tol))
+    for _ in range(ctx.n(400)):
+        # ints / dyadic doubles with exact ties on integer-length chords (int / int true division, exact `>=` ties)
+        core, full, tol = gen_tie(rng)
+        jobs.append(('ieee', full, tol))
     lines = []
     for kind, pts, tol in jobs:
         dps = 'x15' if kind == 'exact' else '15'
